@@ -322,6 +322,7 @@ def oracle(ctx, heavy=False):
     round3_oracle(ctx)
     round4_oracle(ctx)
     round5_oracle(ctx)
+    round6_oracle(ctx)
 
 
 def time_unit_oracle(ctx):
@@ -519,6 +520,33 @@ def round5_oracle(ctx):
             if not torch.equal(yt, ref):
                 ctx.fail("oracle", "ivp:%s:bck-options-change-the-forward-result" % meth, {"fwd_options": fwd, "bck_options": bck},
                          {"max_difference": float((yt - ref).abs().max())}, "bitwise the trajectory without bck_options")
+
+
+def round6_oracle(ctx):
+    """decreasing output times with a right-hand side that returns one of its ARGUMENTS (y' = y written `return y`, y' = c written
+    `return c`): the trajectory is the solution run backwards and the caller's tensors are untouched, for adaptive and fixed-step
+    methods (round-6 seed C07/16: the time-reversal wrapper negated the returned tensor in place)"""
+    from xitorch.integrate import solve_ivp
+    ts = torch.linspace(1.0, 0.0, 5, dtype=DT)
+    for meth in ("rk45", "rk23", "rk4", "rk38", "euler"):
+        for name, fcn, exact in (("return y", lambda t, y, c: y, lambda y0, c: y0 * torch.exp(ts - 1.0).unsqueeze(-1)),
+                                 ("return c", lambda t, y, c: c, lambda y0, c: y0 + (ts - 1.0).unsqueeze(-1) * c)):
+            y0 = torch.tensor([1.0, -2.0], dtype=DT)
+            c = torch.tensor([0.5, 0.25], dtype=DT)
+            y0c, cc = y0.clone(), c.clone()
+            ctx.count(("aliasing-rhs-backwards", meth, name), nontrivial=True)
+            try:
+                yt = solve_ivp(guarded(fcn, 20000), ts, y0, params=(c,), method=meth, **({"rtol": 1e-9, "atol": 1e-11} if meth in ("rk45", "rk23") else {}))
+            except Exception as e:
+                ctx.fail("oracle", "ivp:%s:aliasing-rhs:exception" % meth, {"rhs": name, "y0_untouched": bool(torch.equal(y0, y0c)), "param_untouched": bool(torch.equal(c, cc))},
+                         repr(e)[:200], "a trajectory")
+                continue
+            tol = {"euler": 0.2, "rk23": 1e-5}.get(meth, 1e-3 if meth in ("rk4", "rk38") else 1e-6)
+            err = float((yt - exact(y0c, cc)).abs().max())
+            if not (torch.equal(y0, y0c) and torch.equal(c, cc) and torch.equal(yt[0], y0c) and err <= tol):
+                ctx.fail("oracle", "ivp:%s:aliasing-rhs-backwards" % meth, {"rhs": name, "ts": "1 -> 0, 5 points"},
+                         {"y0_untouched": bool(torch.equal(y0, y0c)), "param_untouched": bool(torch.equal(c, cc)), "first_row_is_y0": bool(torch.equal(yt[0], y0c)), "max_error": err},
+                         "caller's tensors untouched, yt[0] = y0, error <= %g" % tol)
 
 
 def search(ctx):
